@@ -362,7 +362,7 @@ class MsgPackDeserializer {
     for (; n; --n) {
       VariantData* value;
 
-      if (elementFilter.allow()) {
+      if (allowArray && elementFilter.allow()) {
         ARDUINOJSON_ASSERT(array != 0);
         value = array->addElement(resources_);
         if (!value)
